@@ -180,6 +180,8 @@ func runC16RawFloats(c *Ctx) {
 				c.OK(in.Pos(), fn, construct, "helper split off Sequence's own code")
 			case isNewHelper(root) && calledOnlyFromReviewed(c, root, 0) != "":
 				c.Except(in.Pos(), fn, construct, "helper split off reviewed code: "+calledOnlyFromReviewed(c, root, 0))
+			case isNewHelper(root) && handedWholeTo(in, "geom.(*twkbWriter).writePointArray"):
+				c.Except(in.Pos(), fn, construct, "a later helper that does nothing with the slice but hand it whole to writePointArray, as the reviewed TWKB writers do (the stride used there is the writer's dimension, which is checked against the geometry's coordinates type first)")
 			default:
 				c.Bad(in.Pos(), fn, construct, "the raw float slice of a Sequence is read outside Sequence's own methods: code that walks it must apply the stride of the sequence's coordinates type (2, 3 or 4 floats per point); going through Get/GetXY/Length is what guarantees that")
 			}
@@ -188,6 +190,52 @@ func runC16RawFloats(c *Ctx) {
 	if n < 10 {
 		c.Errorf("only %d reads of Sequence.floats found, expected >= 10", n)
 	}
+}
+
+// handedWholeTo: the field read `in` (a Field value, or the loads of a FieldAddr) is used for
+// nothing but as an argument of calls to the named function — never indexed, sliced,
+// measured or stored.
+func handedWholeTo(in ssa.Instruction, sink string) bool {
+	var vals []ssa.Value
+	switch x := in.(type) {
+	case *ssa.Field:
+		vals = append(vals, x)
+	case *ssa.FieldAddr:
+		for _, r := range *x.Referrers() {
+			ld, ok := r.(*ssa.UnOp)
+			if !ok || ld.Op != token.MUL {
+				if _, isDbg := r.(*ssa.DebugRef); isDbg {
+					continue
+				}
+				return false
+			}
+			vals = append(vals, ld)
+		}
+	}
+	if len(vals) == 0 {
+		return false
+	}
+	for _, v := range vals {
+		uses := 0
+		for _, r := range *v.Referrers() {
+			if _, isDbg := r.(*ssa.DebugRef); isDbg {
+				continue
+			}
+			cl, ok := r.(*ssa.Call)
+			if !ok {
+				return false
+			}
+			cal := staticCallee(cl)
+			if cal == nil || FuncName(cal) != sink {
+				return false
+			}
+			uses++
+		}
+		if uses == 0 {
+			return false
+		}
+	}
+	return true
 }
 
 func calledOnlyFromSequence(c *Ctx, f *ssa.Function, d int) bool {
